@@ -136,7 +136,11 @@ void check_l0(const Json& plan, const std::string& side, SnapFn snap)
     // the end of the message (which belong to whatever follows): its length is the shortest prefix that is complete.
     const bool mutated = kind.find('+') != std::string::npos;
     size_t msg_len = msg.size();
-    if (base.kind == Outcome::Done && mutated) {
+    // (a message whose only "mutation" is a trailer section after the last chunk is a complete, legal message as it stands:
+    // its last byte is the last byte of the string)
+    const bool legal_as_is = mutated && kind.substr(kind.find('+')) == "+trailer";
+    if (legal_as_is) r.probe("chunked-with-trailer-section");
+    if (base.kind == Outcome::Done && mutated && !legal_as_is) {
         size_t lo = 1, hi = msg.size();
         while (lo < hi) {
             size_t mid = (lo + hi) / 2;
